@@ -258,7 +258,12 @@ func c05Run(c *core.Ctx, scn stopScn, h *hist.History, l *hist.Layout, tables []
 	}
 	defer s.Close()
 	r := c.Rng(core.StrID("c05run"), uint64(scn.Hist), core.Hash64([]byte(fmt.Sprint(scn.Spec))), uint64(scn.Rep))
-	before := run.LibGoroutines(nil)
+	// goroutines leaked by an earlier scenario of this process were reported
+	// there; they are excluded here so that each leak is attributed once
+	for _, g := range run.LibGoroutines(nil) {
+		s.Abandon(g.ID)
+		c.Cell("preexisting-leaked-goroutine-excluded")
+	}
 	ob := runStop(c, s, l, start, scn, attemptOpts{ErrorCalls: 2, Leftovers: true, ErrorFirst: scn.Rep%2 == 0, ObserveState: true}, r)
 	res := ob.Res
 	wit := func(extra map[string]interface{}) map[string]interface{} {
@@ -272,9 +277,7 @@ func c05Run(c *core.Ctx, scn stopScn, h *hist.History, l *hist.Layout, tables []
 	} else {
 		c.Cell("not-reached:" + cls)
 	}
-	if len(before) > 0 {
-		c.Inconclusive(fmt.Sprintf("library goroutines from an earlier scenario were still alive before %v: %s", scn, run.Sig(before)))
-	}
+
 	switch res.Verdict {
 	case run.Stuck:
 		c.Violation("c05:stream-stuck:"+cls, fmt.Sprintf("%s: Stream did not return; goroutines parked for good: %s", spec, run.Sig(res.StuckDump)), wit(map[string]interface{}{"goroutines": gdump(res.StuckDump)}))
